@@ -103,6 +103,17 @@ def main():
     outcome = H.Outcome()
     rng = random.Random(seed)
     try:
+        # every exploration (and every replay) runs in a process in which an application's own handlers and callbacks have
+        # already raised at every point where the library calls user code: a correct library keeps no trace of that,
+        # process-wide state left behind by an interrupted operation shows in everything that follows
+        try:
+            import comp_codec
+            if not comp_codec._FAULTS_DONE:
+                comp_codec.run_user_code_faults()
+                comp_codec._FAULTS_DONE.append(True)
+            outcome.count("prelude:user-code-faults")
+        except Exception:  # noqa
+            outcome.count("prelude:user-code-faults-not-run")
         if replay_path:
             rep = json.load(open(replay_path))
             comp = importlib.import_module(rep["component"])
